@@ -9,7 +9,11 @@ EXPLANATION = (
     "by index maintenance on every success path, index creation populates the index, no function outside the frozen "
     "writer table mutates a B-tree (no write path bypasses index maintenance), the three maintenance arms are "
     "selected by the (old,new,assignments) shape their callers pass, the insert arm revives a dead entry, the delete "
-    "arm stamps the entry, and the update arm must re-key the entry from the new row image (known finding D23).")
+    "arm stamps the entry, and the update arm must re-key the entry from the new row image (known finding D23). For the "
+    "clause `plan rewriting keeps the predicate`: every predicate/condition an optimizer rule reads from the operators it "
+    "matched flows into an operator it emits, and every predicate partition a rule fills is consumed on every path to the "
+    "emitted alternative unless it is empty there (C06.5). This decides that no conjunct is dropped by the shape of the "
+    "rewrite; it does not decide that the rewritten predicate means the same.")
 NOT_DECIDED = "plan equivalence under index/scan choice, join order, filter placement, statistics (value-level)"
 ASSUMPTIONS = []
 
@@ -189,3 +193,187 @@ def check(cx):
                     gate |= set(m)
         cx.verdict(bool(gate) and gate <= {"Inner", "Cross"}, r4, rule_name, fs[0].where(), "gated to %s" % sorted(gate),
                    "%s applies to join types %s: rewriting an outer join this way changes the answer" % (rule_name, sorted(gate) or "(no gate at all)"))
+
+    # ---- C06.5 predicate conservation in the rewrite rules -----------------------------------------------------------
+    r5 = cx.rule("C06.5", "FLOW: (a) in every TransformationRule::apply each FilterOp.predicate / JoinOp.condition read from "
+                 "a matched operator flows into an argument of an operator constructor of the emitted alternative (through "
+                 "try_create_index_scan/extract_index_bounds for the index rule); (b) every Vec<BoundExpression> a rule "
+                 "hands to classify_predicates/collect_bounds by &mut is, on every path from there to the emission, moved "
+                 "into a call/aggregate of the function itself (not into a conditionally run closure) or tested empty", floor=14)
+    LOGICAL = "sql::planner::logical::"
+    RULES = "sql::planner::rules::"
+    applies = [g for g in p.fns.values() if " as sql::planner::rules::TransformationRule>::apply" in g.id and not g.root]
+    if len(applies) < 6:
+        cx.bad(r5, "anchor-missing:apply", "", "fewer than 6 TransformationRule::apply implementations found")
+
+    def rule_name(g):
+        return g.id.split(" as ")[0].rsplit("::", 1)[-1]
+
+    def local_names(g):
+        return {v[0]: k.split("#")[0] for k, v in g.names.items() if isinstance(v, list) and len(v) == 1}
+
+    def sources(g):
+        out = []
+        for b in g.blocks:
+            for st in b["stmts"]:
+                rv = st["rv"]
+                if rv.get("r") == "ref":
+                    for pe in rv["p"][1:]:
+                        if isinstance(pe, str) and (pe.startswith(".predicate:" + LOGICAL + "FilterOp") or pe.startswith(".condition:" + LOGICAL + "JoinOp")):
+                            out.append((pe.split(":")[0][1:], rv["p"][0], st["dst"][0]))
+        return out
+
+    tcis = RULES + "FilterToIndexScanRule::try_create_index_scan"
+    eib = RULES + "FilterToIndexScanRule::extract_index_bounds"
+    FIELD = {"Filter": "predicate", "Join": "condition"}
+    for g in sorted(applies, key=lambda x: x.id):
+        nm = local_names(g)
+        sinks = set()
+        for c in g.calls():
+            ctor = c.callee.startswith(LOGICAL) and c.callee.endswith("::new") and not c.callee.endswith("LogicalExpr::new")
+            if ctor or c.callee == tcis:
+                for a in c.args:
+                    l = op_local(a)
+                    if l is not None:
+                        sinks |= g.dep_closure(l)
+        # the operators the rule matched: `let LogicalOperator::Filter(x) = &e.op` binds x = &((*e).op as Filter).0
+        matched = []
+        for b in g.blocks:
+            for st in b["stmts"]:
+                rv = st["rv"]
+                if rv.get("r") == "ref" and len(rv["p"]) >= 3 and rv["p"][-2] in ("@Filter", "@Join") and \
+                        str(rv["p"][-1]).startswith(".0:" + LOGICAL + "LogicalOperator") and len(st["dst"]) == 1:
+                    matched.append((rv["p"][-2][1:], st["dst"][0]))
+        srcs = sources(g)
+        ordinal = {}
+        for kind, loc in matched:
+            ordinal[kind] = ordinal.get(kind, 0) + 1
+            key = "%s:matched-%s#%d.%s" % (rule_name(g), kind, ordinal[kind], FIELD[kind])
+            reads = [d for f_, b_, d in srcs if f_ == FIELD[kind] and b_ == loc]
+            good = bool(reads) and all(d in sinks for d in reads)
+            cx.verdict(good, r5, key, g.where(), "`%s.%s` flows into an emitted operator" % (nm.get(loc, "?"), FIELD[kind]),
+                       "%s matches a %s (`%s`) but %s: the rewritten plan no longer evaluates that predicate" % (
+                           rule_name(g), kind, nm.get(loc, "?"),
+                           "an emitted operator is not built from its %s" % FIELD[kind] if reads else "never reads its %s" % FIELD[kind]))
+    # the index rule's chain: predicate -> extract_index_bounds -> (start, end, residual) -> fields of the IndexScanOp
+    ft = cx.guard(r5, "try_create_index_scan", p.fn, tcis)
+    if ft:
+        ex = [c for c in ft.calls() if c.callee == eib]
+        if not ex:
+            cx.bad(r5, "index-scan:extract", ft.where(), "try_create_index_scan no longer calls extract_index_bounds")
+        else:
+            res = ex[0].dst[0]
+            pred_in = any(3 in ft.dep_closure(op_local(a)) for a in ex[0].args if op_local(a) is not None)
+            cx.verdict(pred_in, r5, "index-scan:predicate-in", ex[0].where(), "the filter predicate is what bounds are extracted from",
+                       "extract_index_bounds is not given the filter predicate")
+            for fld in ("range_start", "range_end", "residual_predicate"):
+                st = [s_ for b in ft.blocks for s_ in b["stmts"]
+                      if any(isinstance(pe, str) and pe.startswith(".%s:" % fld) for pe in s_["dst"][1:])]
+                good = bool(st) and all(
+                    any(res in ft.dep_closure(op_local(o)) for o in (s_["rv"].get("o") or []) if isinstance(s_["rv"].get("o"), list) and op_local(o) is not None)
+                    for s_ in st)
+                # distinct tuple components: the three stores must not read the same component
+                cx.verdict(good, r5, "index-scan:%s" % fld, ft.where(), "stored from the extraction result",
+                           "IndexScanOp.%s is not set from extract_index_bounds: the part of the predicate it carries is lost" % fld)
+            comps = {}
+            for b in ft.blocks:
+                for s_ in b["stmts"]:
+                    for pe in s_["dst"][1:]:
+                        if isinstance(pe, str) and pe.split(":")[0] in (".range_start", ".range_end", ".residual_predicate"):
+                            o = (s_["rv"].get("o") or [None])[0]
+                            l = op_local(o) if o else None
+                            # which tuple component does l come from
+                            src = None
+                            for _ in range(3):
+                                nxt = None
+                                for b2 in ft.blocks:
+                                    for s2 in b2["stmts"]:
+                                        if s2["dst"] == [l] and s2["rv"].get("r") == "use":
+                                            pl = s2["rv"]["o"][0].get("m") or s2["rv"]["o"][0].get("c") or []
+                                            if pl and pl[0] == res and len(pl) > 1:
+                                                src = pl[1]
+                                            elif len(pl) == 1:
+                                                nxt = pl[0]
+                                if src is not None or nxt is None:
+                                    break
+                                l = nxt
+                            comps[pe.split(":")[0][1:]] = src
+            want = {"range_start": ".0", "range_end": ".1", "residual_predicate": ".2"}
+            cx.verdict(comps == want, r5, "index-scan:component-order", ft.where(), "start/end/residual taken from components 0/1/2",
+                       "the extraction result is destructured as %s (expected %s): bounds and residual are swapped" % (comps, want))
+
+    # (b) partitions
+    COLLECTORS = {RULES + "classify_predicates": (2, 3, 4), RULES + "FilterToIndexScanRule::collect_bounds": (4, 5, 6)}
+    for g in sorted(p.fns.values(), key=lambda x: x.id):
+        if not g.id.startswith(RULES) and "<" + RULES not in g.id:
+            continue
+        for c in g.calls():
+            if c.callee not in COLLECTORS or c.fn.id == c.callee:
+                continue
+            nm = local_names(g)
+            # emission: the return; a path through `vec![]` of LogicalExpr returns no alternative and loses nothing
+            emits = [bi for bi, b in enumerate(g.blocks) if b["term"]["t"] == "ret"]
+            no_alt = {x.bb for x in g.calls() if x.defn.endswith("Vec::<T>::new") and any("logical::LogicalExpr" in a for a in x.gargs)}
+            for ai in COLLECTORS[c.callee]:
+                l = op_local(c.args[ai])
+                # &mut *(&mut X): peel reborrows
+                x = None
+                for _ in range(4):
+                    nxt = None
+                    for b in g.blocks:
+                        for st in b["stmts"]:
+                            if st["dst"] == [l] and st["rv"].get("r") == "ref":
+                                nxt = st["rv"]["p"]
+                    if nxt is None:
+                        break
+                    if len(nxt) == 1:
+                        x = nxt[0]
+                        break
+                    l = nxt[0]
+                key = "partition:%s:%s" % (g.id.split(" as ")[0].rsplit("::", 2)[-1] if " as " in g.id else g.id.rsplit("::", 1)[-1], nm.get(x, "arg%d" % ai))
+                if x is None or x <= g.nargs:
+                    continue   # the collector's own recursion / a parameter handed down: judged at the owner
+                # consumer blocks: X moved into a call argument or a non-closure aggregate
+                cons = set()
+                for bi, b in enumerate(g.blocks):
+                    for st in b["stmts"]:
+                        ops = st["rv"].get("o") if isinstance(st["rv"].get("o"), list) else []
+                        if any(o.get("m") == [x] for o in ops) and not (st["rv"].get("r") == "agg" and st["rv"].get("akind") == "closure"):
+                            cons.add(bi)
+                    t = b["term"]
+                    if t["t"] == "call" and any(o.get("m") == [x] for o in t["args"]):
+                        cons.add(bi)
+                # exempt edges: the `true` arm of X.is_empty()
+                exempt = set()
+                for ie in g.calls():
+                    if ie.defn.endswith("::is_empty") and ie.args:
+                        rl = op_local(ie.args[0])
+                        tgt = None
+                        for b in g.blocks:
+                            for st in b["stmts"]:
+                                if st["dst"] == [rl] and st["rv"].get("r") == "ref" and st["rv"]["p"] == [x]:
+                                    tgt = x
+                        if tgt is None or ie.term["to"] is None:
+                            continue
+                        tb = g.blocks[ie.term["to"]]["term"]
+                        if tb["t"] == "switch" and op_local(tb["o"]) == ie.dst[0]:
+                            exempt.add((ie.term["to"], tb["otherwise"]))
+                seen_b, work = set(), [c.term["to"]]
+                leak = None
+                while work:
+                    u = work.pop()
+                    if u in seen_b or u is None:
+                        continue
+                    seen_b.add(u)
+                    if u in cons or u in no_alt:
+                        continue
+                    if u in emits:
+                        leak = u
+                        break
+                    for v in g.succ(u):
+                        if (u, v) not in exempt and not g.blocks[v]["cleanup"]:
+                            work.append(v)
+                cx.verdict(leak is None, r5, key, c.where(), "consumed (or empty) on every path to the emitted alternative",
+                           "%s can emit its alternative on a path where the predicates collected in `%s` were neither used nor "
+                           "known to be empty (they are dropped, or only used inside a conditionally executed closure): the "
+                           "rewritten plan silently loses those conjuncts" % (g.id, nm.get(x, "?")))
